@@ -645,38 +645,58 @@ fn worker(k: usize, nw: usize, tier: Tier, seed: u64, out: &str) -> i32 {
     run.profile = "mip";
     let all = instances(tier);
     let mine: Vec<&Inst> = all.iter().enumerate().filter(|(i, _)| i % nw == k).map(|(_, x)| x).collect();
+    let mut families: Vec<&'static str> = Vec::new();
+    for i in &all {
+        if !families.contains(&i.family) {
+            families.push(i.family);
+        }
+    }
     for which in ["sop", "sopes", "esop"] {
-        let sel: Vec<&&Inst> = mine.iter().filter(|i| i.which == which).collect();
-        let exhaustive = tier == Tier::Thorough;
-        run.section_seq(&format!("MIP optimize_{}_mip vs exhaustive two-level optimum (+ metamorphic oracle on equivalent instances)", which), exhaustive, "all lists of 1..2 functions n<=2 and all single functions n=3 (exhaustive optimum); pairs/triples of NPN representatives and literal-or-cube rotations n=3, literal-or-cube pairs and NPN singles n=4 (exhaustive optimum while the state space is <= 2^21), dense 2-/3-output lists n=4 (metamorphic oracle only)", |l: &mut Local| {
-            for i in &sel {
-                l.states += 1;
-                l.transitions += 1;
-                l.validated += 1;
-                let t0 = std::time::Instant::now();
-                let res = check_instance(i.which, i.n, &i.fs, i.costs.0, i.costs.1, i.costs.2, i.meta);
-                if std::env::var("LSX_MIP_TIMING").is_ok() {
-                    *l.outcomes.entry(format!("ms:{}:{}", i.family, i.which)).or_insert(0) += t0.elapsed().as_millis() as u64;
-                    *l.outcomes.entry(format!("count:{}:{}", i.family, i.which)).or_insert(0) += 1;
-                }
-                match res {
-                    Ok((cost, optimum, explored)) => {
-                        l.nontrivial += (cost > 0) as u64;
-                        l.digest ^= engine::mix3(engine::hash_str(&case_of(i)), cost as u64, 0);
-                        l.outcome(&format!("{}:{}", i.family, if optimum.is_some() { if i.meta { "exhaustive-optimum+metamorphic" } else { "exhaustive-optimum" } } else { "metamorphic-only" }));
-                        // the oracle's own explicit-state search
-                        l.transitions += explored;
+        for family in &families {
+            let sel: Vec<&&Inst> = mine.iter().filter(|i| i.which == which && i.family == *family).collect();
+            // complete over the property's exhaustive domain: every list of 1..2 functions (n<=2) and
+            // every single function (n=3) with all 27 cost triples (thorough tier)
+            let exhaustive = tier == Tier::Thorough && (*family == "all-n<=2" || *family == "all-singles-n3" || *family == "triples-n<=1");
+            let bound = match *family {
+                "all-n<=2" => "all lists of 1..2 functions of n<=2 variables; exhaustive optimum",
+                "all-singles-n3" => "all 256 single functions of 3 variables; exhaustive optimum (+ metamorphic on every 16th)",
+                "triples-n<=1" => "all 3-output lists for n<=1; exhaustive optimum",
+                "npn-pairs-n3" | "npn-triples-n3" => "pairs / triples of the 14 NPN representatives of 3 variables; exhaustive optimum while the state space is <= 2^21",
+                "literal-or-cube-rotations-n3" => "(literal | 2-literal cube) and its two variable rotations, 3 outputs; exhaustive optimum",
+                "literal-or-cube-pairs-n4" => "(literal | 3-literal cube) and a variable-permuted copy, n=4, 2 outputs; exhaustive optimum",
+                "npn-singles-n4" => "NPN representatives of 4 variables, single output; exhaustive optimum (ESOP: 2^16 states), metamorphic on every 4th",
+                _ => "dense 2-/3-output lists of 4 variables: beyond the exhaustive search; metamorphic oracle (equivalent instances) only",
+            };
+            run.section_seq(&format!("MIP optimize_{}_mip / {}", which, family), exhaustive, bound, |l: &mut Local| {
+                for i in &sel {
+                    l.states += 1;
+                    l.transitions += 1;
+                    l.validated += 1;
+                    let t0 = std::time::Instant::now();
+                    let res = check_instance(i.which, i.n, &i.fs, i.costs.0, i.costs.1, i.costs.2, i.meta);
+                    if std::env::var("LSX_MIP_TIMING").is_ok() {
+                        *l.outcomes.entry(format!("ms:{}:{}", i.family, i.which)).or_insert(0) += t0.elapsed().as_millis() as u64;
+                        *l.outcomes.entry(format!("count:{}:{}", i.family, i.which)).or_insert(0) += 1;
                     }
-                    Err(v) => {
-                        let sig = signature(i, &v);
-                        l.violation(format!("{}|{}|{:02}|{}", i.which, i.n, i.fs.len(), case_of(i)), &sig, case_of(i), v.0, v.1);
+                    match res {
+                        Ok((cost, optimum, explored)) => {
+                            l.nontrivial += (cost > 0) as u64;
+                            l.digest ^= engine::mix3(engine::hash_str(&case_of(i)), cost as u64, 0);
+                            l.outcome(if optimum.is_some() { if i.meta { "exhaustive-optimum+metamorphic" } else { "exhaustive-optimum" } } else { "metamorphic-only" });
+                            // the oracle's own explicit-state search
+                            l.transitions += explored;
+                        }
+                        Err(v) => {
+                            let sig = signature(i, &v);
+                            l.violation(format!("{}|{}|{:02}|{}", i.which, i.n, i.fs.len(), case_of(i)), &sig, case_of(i), v.0, v.1);
+                        }
                     }
                 }
-            }
-            if let Some(i) = sel.first() {
-                l.sample(J::s(case_of(i)));
-            }
-        });
+                if let Some(i) = sel.first() {
+                    l.sample(J::s(case_of(i)));
+                }
+            });
+        }
     }
     match std::fs::write(out, engine::run_to_json(&run).dump()) {
         Ok(()) => 0,
